@@ -286,9 +286,9 @@ func (c13) Execute(h *core.History) *core.Outcome {
 	o := &core.Outcome{}
 	st := &o.Stats
 	cfg := sessCfgOf(h)
-	api := world.NewSession(cfg)  // Go API: DefineMacros / ExpandMacros, dumps
-	real := world.NewSession(cfg) // the macro program through EvalOne
-	ref := world.NewSession(cfg)  // the hand-substituted, macro-free program through EvalOne
+	api := world.NewSession(cfg)                                           // Go API: DefineMacros / ExpandMacros, dumps
+	real := world.NewSession(cfg)                                          // the macro program through EvalOne
+	ref := world.NewSession(cfg)                                           // the hand-substituted, macro-free program through EvalOne
 	reps := []*world.Session{world.NewSession(cfg), world.NewSession(cfg)} // printed expansions (normal, compact)
 	st.Execs = 5
 	fail := func(i int, oracle, detail string) {
